@@ -85,7 +85,7 @@ impl World {
         { let mut n = node.lock().unwrap(); n.height = 1000; n.node_id = pubkey(LOCAL).to_string(); }
         World { node, hash_hex: hash.to_string(), hash: hash.to_byte_array().to_vec(),
             inv_fixed: make_invoice(&pre, Some(1_000_000), 0, 2), inv_open: make_invoice(&pre, None, 0, 2), open, inv_amount: 1_000_000, cfg,
-            calls: vec![], aids: vec![], acts: vec![], obs: vec![], life: 0, fault_read: false, lost_write: false, wfault: false, fault_kind: String::new(), height: 1000, model_wall: 0, stamp: BTreeMap::new(), mono: 0, wait_started: None, next_part: 1, restart_aid: None, init_snap: None, other: None, other_call: None, select_seed: 0, other_depth: 0, other_frozen_log: 0, idle_since: None, no_pay: vec![], hold: vec![] }
+            calls: vec![], aids: vec![], acts: vec![], obs: vec![], life: 0, fault_read: false, lost_write: false, wfault: false, fault_kind: String::new(), height: 1000, model_wall: 1_000_000, stamp: BTreeMap::new(), mono: 0, wait_started: None, next_part: 1, restart_aid: None, init_snap: None, other: None, other_call: None, select_seed: 0, other_depth: 0, other_frozen_log: 0, idle_since: None, no_pay: vec![], hold: vec![] }
     }
     fn aid_canon(&mut self, aid: &str) -> usize {
         if let Some(p) = self.aids.iter().position(|a| a == aid) { return p + 1; }
@@ -186,14 +186,14 @@ pub async fn boot(w: &World, sock: &str) -> Plugin {
 }
 
 /// the htlc_accepted request for (bolt11 variant, declared amount, htlc amount, expiry, relative expiry, total)
-pub fn make_req(w: &World, b11: u8, tlv_amount: Option<u64>, amount: u64, expiry: u32, rel: i64, total: Option<u64>, id: u64) -> HtlcAcceptedRequest {
+pub fn make_req(w: &World, b11: u8, tlv_amount: Option<u64>, amount: u64, expiry: u32, rel: i64, total: Option<u64>, id: u64, fwd: Option<u64>) -> HtlcAcceptedRequest {
     let inv = if w.open { w.inv_open.clone() } else { w.inv_fixed.clone() };
     let inv = if b11 == 1 { inv.to_ascii_uppercase() } else { inv };
     let mut md: Vec<Rec> = vec![(33001, inv.into_bytes())];
     if let Some(a) = tlv_amount { md.push((33003, a.to_be_bytes().to_vec())); }
     let payload: Vec<Rec> = vec![(2, vec![1]), (16, ref_encode(&md))];
     HtlcAcceptedRequest {
-        onion: Onion { payload: stream_of(&payload), short_channel_id: None, forward_msat: Some(amount), total_msat: total },
+        onion: Onion { payload: stream_of(&payload), short_channel_id: None, forward_msat: Some(fwd.unwrap_or(amount)), total_msat: total },
         htlc: Htlc { short_channel_id: "4x5x6".parse().unwrap(), id, amount_msat: amount, cltv_expiry: expiry, cltv_expiry_relative: rel, payment_hash: w.hash.clone() },
     }
 }
@@ -315,6 +315,11 @@ fn oracle_step(w: &World, ctx: &mut Ctx, resps: &[(u64, String)], _act: &str) {
     }
     // C07: one resolution for everybody answered in the same step
     if resps.len() > 1 && resps.iter().any(|(_, r)| r != &resps[0].1) { ctx.violation("C07", "mixed-resolution", &format!("responses of one step differ: {:?} REPLAY[{}]", resps, replay(w))); }
+    // C07: a step that answers a trampoline HTLC answers every trampoline HTLC held for the hash (they are decided together)
+    if resps.iter().any(|(i, r)| w.calls[*i as usize].is_tramp && r != "panic") {
+        let left: Vec<u64> = w.calls.iter().filter(|c| c.resp.is_none() && c.life == w.life && c.is_tramp).map(|c| c.id).collect();
+        if !left.is_empty() { ctx.violation("C07", "partial-resolution", &format!("htlcs {:?} were answered ({:?}) while htlcs {:?} of the same hash stay held REPLAY[{}]", resps.iter().map(|x| x.0).collect::<Vec<_>>(), resps.iter().map(|x| x.1.clone()).collect::<Vec<_>>(), left, replay(w))); }
+    }
     // C08: the durable record never understates
     let live = parts.iter().any(|p| p.st != PSt::Failed);
     if live && !w.fault_read && !w.lost_write {
@@ -338,7 +343,7 @@ fn applicable(w: &mut World, act: &str) -> bool {
     if let Some(t) = act.strip_prefix("d:") { return toks.iter().any(|x| x.1 == t && x.2); }
     if act.len() > 3 && act.starts_with('f') && &act[2..3] == ":" { let t = &act[3..]; return toks.iter().any(|x| x.1 == t && !x.2); }
     if act.starts_with("pe:") { return running && toks.iter().any(|x| x.1 == "pay" && !x.2); }
-    if act.starts_with("ar:") || act.starts_with("tm") || act.starts_with("tw") || act.starts_with("bl") || act == "cr" { return true; }
+    if act.starts_with("ar:") || act.starts_with("tm") || act.starts_with("tw") || act.starts_with("tb") || act.starts_with("bl") || act == "cr" { return true; }
     if let Some(id) = act.strip_prefix("c") { return running && id.parse::<u64>().map(|i| !parts.iter().any(|p| p.id == i)).unwrap_or(false); }
     if let Some(rest) = act.strip_prefix("r") { let id: u64 = rest.split(':').next().unwrap_or("").parse().unwrap_or(u64::MAX); return parts.iter().any(|p| p.id == id && p.st == PSt::Pending); }
     false
@@ -354,18 +359,21 @@ pub async fn apply(w: &mut World, p: &Plugin, rng: &mut Rng, act: &str) -> Step 
         let f: Vec<&str> = rest.split(':').collect();
         let b11: u8 = f[0].parse().unwrap(); let amt: u64 = f[1].parse().unwrap(); let hamt: u64 = f[2].parse().unwrap();
         let expiry: u32 = f[3].parse().unwrap(); let rel: i64 = f[4].parse().unwrap(); let total: Option<u64> = if f[5] == "-" { None } else { Some(f[5].parse().unwrap()) };
+        // optional 7th field: what the onion says is forwarded (defaults to the HTLC's own amount); it is the declared total when none is given
+        let fwd: Option<u64> = f.get(6).and_then(|x| x.parse().ok());
+        let declared = total.unwrap_or(fwd.unwrap_or(hamt));
         let id = w.calls.len() as u64;
         let tlv = if w.open { Some(amt) } else if amt != w.inv_amount { Some(amt) } else { None };
-        let req = make_req(w, b11, tlv, hamt, expiry, rel, total, id);
+        let req = make_req(w, b11, tlv, hamt, expiry, rel, total, id, fwd);
         // C07 bookkeeping, from the property's own words: does this HTLC trigger a rejection of a still-incomplete set?
         let is_tramp = w.open || amt == w.inv_amount;
         let mut rejecting_flag = false;
-        let policy_reject = is_tramp && (rel < w.cfg.policy_delta as i64 || (total.unwrap_or(hamt) as u128) < need(w, amt));
+        let policy_reject = is_tramp && (rel < w.cfg.policy_delta as i64 || (declared as u128) < need(w, amt));
         let first_of_set = held(w).is_empty();
         if is_tramp {
             let (first, sum): (Option<(u8, u64)>, u128) = { let h = held(w); (h.first().map(|c| (c.b11, c.a)), h.iter().map(|c| c.amount as u128).sum()) };
             let (b0, a0) = first.unwrap_or((b11, amt));
-            let rejecting = (b11, amt) != (b0, a0) || rel < w.cfg.policy_delta as i64 || (total.unwrap_or(hamt) as u128) < need(w, amt);
+            let rejecting = (b11, amt) != (b0, a0) || rel < w.cfg.policy_delta as i64 || (declared as u128) < need(w, amt);
             rejecting_flag = rejecting;
             if rejecting && sum < need(w, a0) { let mut ids: Vec<u64> = held(w).iter().map(|c| c.id).collect(); ids.push(id); w.no_pay = ids; }
         }
@@ -380,6 +388,15 @@ pub async fn apply(w: &mut World, p: &Plugin, rng: &mut Rng, act: &str) -> Step 
         let key = state_key(&hh);
         if let Some((s, g)) = n.ds.get(&key).cloned() {
             if let Ok(mut v) = serde_json::from_str::<Value>(&s) { if let Some(pd) = v.get_mut("Pending") { let t = pd["attempt_time_seconds"].as_u64().unwrap_or(0); pd["attempt_time_seconds"] = json!(t.saturating_sub(dt)); let aid = pd["attempt_id"].as_str().unwrap_or("").to_string(); n.ds.insert(key, (v.to_string(), g)); drop(n); if let Some(st) = w.stamp.get_mut(&aid) { st.0 = st.0.saturating_sub(dt); } } }
+        }
+    }
+    else if let Some(dt) = act.strip_prefix("tb") {
+        // the wall clock is stepped BACK by dt: every stored attempt time moves into the future by dt
+        let dt: u64 = dt.parse().unwrap(); w.model_wall = w.model_wall.saturating_sub(dt);
+        let mut n = w.node.lock().unwrap();
+        let key = state_key(&hh);
+        if let Some((s, g)) = n.ds.get(&key).cloned() {
+            if let Ok(mut v) = serde_json::from_str::<Value>(&s) { if let Some(pd) = v.get_mut("Pending") { let t = pd["attempt_time_seconds"].as_u64().unwrap_or(0); pd["attempt_time_seconds"] = json!(t + dt); let aid = pd["attempt_id"].as_str().unwrap_or("").to_string(); n.ds.insert(key, (v.to_string(), g)); drop(n); if let Some(st) = w.stamp.get_mut(&aid) { st.0 += dt; } } }
         }
     }
     else if let Some(h) = act.strip_prefix("bl") { let h: u32 = h.parse().unwrap(); { let mut n = w.node.lock().unwrap(); if h > n.height { n.height = h; } } p.watcher.new_block(&BlockAdded { height: h }).await; if h > w.height { w.height = h; } }
@@ -498,12 +515,15 @@ pub fn candidates(w: &mut World, rng: &mut Rng, g: &Gen, step: usize) -> Vec<Str
             let (expiry, rel) = match rng.below(24) { 0 => (w.height + pd.saturating_sub(44), pd as i64 - 44), 1 => (w.height + pd, pd as i64), 2 => (w.height + pd.saturating_sub(1), pd as i64 - 1), 3 => (w.height + 70_000, 70_000), 4 => (w.height + pd + 56, -5), 5 => (w.height + pd + 6, pd as i64 + 6), _ => (w.height + pd + 156 + rng.below(300) as u32, pd as i64 + 156) };
             let b11 = if rng.coin(1, 25) { 1 } else { 0 };
             let a = if rng.coin(1, 12) { if w.open { *rng.pick(&[amt + 1, amt / 2, amt / 1000]) } else { *rng.pick(&[amt / 1000, amt + 1, amt / 2]) } } else { amt };
-            c.push(format!("ar:{}:{}:{}:{}:{}:{}", b11, a, hamt, expiry, rel, total.map(|t| t.to_string()).unwrap_or("-".into())));
+            // the onion's forward amount is the sender's claim: usually the HTLC's own amount, sometimes more or less
+            let fwd = if rng.coin(1, 12) { format!(":{}", *rng.pick(&[nd, hamt / 2, hamt.saturating_add(nd), 2 * nd, 1])) } else { String::new() };
+            c.push(format!("ar:{}:{}:{}:{}:{}:{}{}", b11, a, hamt, expiry, rel, total.map(|t| t.to_string()).unwrap_or("-".into()), fwd));
         }
     }
     c.push(format!("tm{}", *rng.pick(&[1u64, 10, 29, 30, 31, 59, 60, 61])));
     // the wall clock is only moved while no lifecycle holds a fetched attempt time (e.g. while the node was down)
     if toks.is_empty() && held(w).is_empty() && rng.coin(1, 2) { c.push(format!("tw{}", *rng.pick(&[1u64, 30, 59, 60, 61, 100]))); }
+    if toks.is_empty() && held(w).is_empty() && rng.coin(1, 6) { c.push(format!("tb{}", *rng.pick(&[1u64, 5, 30, 61, 600]))); }
     if rng.coin(1, 6) { c.push(format!("bl{}", w.height + rng.below(120) as u32)); }
     if g.crashes && rng.coin(1, 14) { c.push("cr".into()); }
     c
@@ -573,16 +593,17 @@ pub fn run_case(ctx: &mut Ctx, rng: &mut Rng, sock: &str, open: bool, cfg: SCfg,
                 let m = p.mgr.clone();
                 w.other_call = Some(tokio::spawn(async move { AssertUnwindSafe(m.handle_htlc(&req)).catch_unwind().await.map_err(|_| ()) }));
                 settle(&w.node).await;
-                // answer the first `other_depth` RPCs of hash B truthfully, then never again (a pay request is never answered)
+                // answer the first `other_depth` RPCs of hash B truthfully (its pay command, the 4th, completes), then never again
                 let (ohex, oinv2) = { let o = w.other.as_ref().unwrap(); (o.0.clone(), o.2.clone()) };
                 let is_b = |p: &node::Parked| { let t = p.params.to_string(); p.method != "getinfo" && (t.contains(ohex.as_str()) || t.contains(oinv2.as_str())) };
                 for _ in 0..w.other_depth {
                     let done = {
                         let mut n = w.node.lock().unwrap();
                         match n.parked.iter().position(|p| is_b(p) && p.served.is_none()) {
-                            Some(i) if n.parked[i].method != "pay" => {
+                            Some(i) => {
                                 let (m2, pr) = (n.parked[i].method.clone(), n.parked[i].params.clone());
-                                let r = n.serve_truthful(&m2, &pr);
+                                // hash B's pay command completes with B's own preimage (78): B is then frozen in its bookkeeping
+                                let r = if m2 == "pay" { Some(Ok(node::pay_reply_json(&ohex, "complete", 78, false))) } else { n.serve_truthful(&m2, &pr) };
                                 let mut pk = n.parked.remove(i);
                                 if let (Some(tx), Some(r)) = (pk.tx.take(), r) { let _ = tx.send(r); }
                                 false
@@ -813,6 +834,27 @@ fn enumerate_restart(ctx: &mut Ctx, rng: &mut Rng, sock: &str) {
     }
 }
 
+/// restart with a stored in-flight marker whose attempt time is older / newer than the wall clock by a
+/// chosen amount (the clock may have been stepped back), nothing live, an INCOMPLETE replayed set: the
+/// set must be failed after exactly what is left of one timeout, never more than one timeout (C11)
+fn enumerate_restart_clock(ctx: &mut Ctx, rng: &mut Rng, sock: &str) {
+    let nd = 1_006_000u64;
+    let full = format!("ar:0:1000000:{}:1400:300:{}", nd, nd);
+    let part = format!("ar:0:1000000:{}:1400:300:{}", nd / 2, nd);
+    for open in [false, true] {
+        for shift in ["tb600", "tb61", "tb5", "tw1", "tw30", "tw59", "tw60", "tw61", "tw600"] {
+            for crash_at in [5usize, 7] {   // after the marker write / after both writes of add_payment_attempt
+                let pre: Vec<&str> = vec![full.as_str(), "s:dl", "d:dl", "s:wsP1:cor", "d:wsP1:cor", "s:wa1:mc", "d:wa1:mc"];
+                let mut sc: Vec<String> = pre[..crash_at].iter().map(|x| x.to_string()).collect();
+                sc.push("cr".into()); sc.push(shift.into()); sc.push(part.clone());
+                for t in ["s:dl", "d:dl", "s:lp", "d:lp", "s:lc", "d:lc", "s:wa1:cor", "d:wa1:cor", "s:wsF:mr0", "d:wsF:mr0", "tm29", "tm1", "tm29", "tm1", "tm1", "tm59", "tm1", "tm1"] { sc.push(t.into()); }
+                let g = Gen { faults_w: false, faults_r: false, crashes: false, lost: false, replay: false, coop: Some(false), other: false, other_depth: 0, hold_first: 0, select_seed: None };
+                run_case(ctx, rng, sock, open, default_cfg(), sc, 40, &g); ctx.count("enum:restart-clock");
+            }
+        }
+    }
+}
+
 pub fn run(mut ctx: Ctx) {
     let mut rng = Rng::new(ctx.seed);
     let sock = format!("{}/system.sock", ctx.dir);
@@ -832,6 +874,7 @@ pub fn run(mut ctx: Ctx) {
     enumerate_faults(&mut ctx, &mut rng, &sock, false);
     enumerate_overlap(&mut ctx, &mut rng, &sock);
     enumerate_restart(&mut ctx, &mut rng, &sock);
+    enumerate_restart_clock(&mut ctx, &mut rng, &sock);
     if ctx.thorough { enumerate_faults(&mut ctx, &mut rng, &sock, true); }
     let n = if ctx.thorough { 6000 } else { 300 };
     for i in 0..n {
@@ -845,7 +888,7 @@ pub fn run(mut ctx: Ctx) {
             cfg.base = *rng.pick(&[0u32, 1, 1000, 4_294_967_295]);
             cfg.ppm = *rng.pick(&[0u32, 1, 5000, 1_000_000, 4_294_967_295]);
         }
-        let g = Gen { faults_w: i % 3 == 1, faults_r: ctx.thorough && i % 10 == 9, crashes: i % 2 == 1, lost: ctx.thorough && i % 17 == 16, replay: false, coop: None, other: i % 4 == 2, other_depth: (i / 4) % 5, hold_first: 0, select_seed: None };
+        let g = Gen { faults_w: i % 3 == 1, faults_r: ctx.thorough && i % 10 == 9, crashes: i % 2 == 1, lost: ctx.thorough && i % 17 == 16, replay: false, coop: None, other: i % 4 == 2, other_depth: (i / 4) % 7, hold_first: 0, select_seed: None };
         let len = 25 + rng.below(40) as usize;
         run_case(&mut ctx, &mut rng, &sock, open, cfg, vec![], len, &g);
     }
